@@ -673,18 +673,25 @@ func vfc18TruthOf(cmds []vfc18Cmd, fb string) vfc18Truth {
 }
 
 type vfc18World struct {
-	s     *vfutil.Session
-	nodes *vfc18Nodes
-	n     int
-	cp    string
-	ro    *RedisOutput
+	s        *vfutil.Session
+	nodes    *vfc18Nodes
+	n        int
+	cp       string
+	ro       *RedisOutput
+	clusters map[string]*cluster.Cluster
 }
 
 // owner of a slot in the client's slot map: equal ranges over n nodes
 func (w *vfc18World) ownerIdx(slot int) int { return slot * w.n / 16384 }
 
+// newCluster returns the cluster client for a fall-back behaviour and a hole
+// pattern; clients are cached (each owns node pipelines and TCP connections).
 func (w *vfc18World) newCluster(fb string, hole int) *cluster.Cluster {
-	return cluster.VerifNewStaticCluster(w.nodes.addrs, func(slot int) int {
+	key := fmt.Sprintf("%s/%d", fb, hole)
+	if c, ok := w.clusters[key]; ok {
+		return c
+	}
+	c := cluster.VerifNewStaticCluster(w.nodes.addrs, func(slot int) int {
 		if slot%1000 < hole {
 			return -1
 		}
@@ -701,6 +708,11 @@ func (w *vfc18World) newCluster(fb string, hole int) *cluster.Cluster {
 		}
 		return vfc18Fb(fb, raw)
 	})
+	if w.clusters == nil {
+		w.clusters = map[string]*cluster.Cluster{}
+	}
+	w.clusters[key] = c
+	return c
 }
 
 func vfc18PutErr(err error) string {
@@ -740,7 +752,7 @@ func (w *vfc18World) txnOne(r *vfutil.Rand, cmds []vfc18Cmd, fb string, err erro
 	toks := vfc18Toks(cmds)
 	hole := 0
 	if r.Chance(1, 12) {
-		hole = r.Range(1, 300)
+		hole = vfutil.Pick(r, []int{1, 137, 400})
 	}
 	cl := w.newCluster(fb, hole)
 	b := cl.NewTxnBatcher()
@@ -991,6 +1003,11 @@ func TestVerifC18(t *testing.T) {
 	w := &vfc18World{s: s, nodes: nodes, n: 3, cp: cp,
 		ro: NewRedisOutput(RedisOutputConfig{InputName: "in-1", CheckpointName: cp, BisyncEnabled: true,
 			Redis: config.RedisConfig{Type: config.RedisTypeCluster}, BatchCmdCount: 8})}
+	defer func() {
+		for _, c := range w.clusters {
+			c.Close()
+		}
+	}()
 
 	// ---- commit shapes (dispatch order) with a recording batcher, all three kinds
 	for i := 0; i < vfutil.Scale(300, 3000); i++ {
